@@ -321,7 +321,7 @@ def _run_unit_once(unit, tier, seed, carry):
             res['undecided'].append('verus internal error (panic): ' + next(x for x in r['stderr_other'] if 'panicked at' in x)[:200])
         if r['summary'] is None:
             res['undecided'].append(f'verus produced no summary (rc={r["rc"]}): ' + ' | '.join(r['stderr_other'][:3])[:500])
-        lifted = {(f.get('fn_emitted') or f.get('as') or f['name']): f.get('named_clauses', []) for f in meta.get('functions', []) if f['kind'] in ('item', 'tail', 'loop', 'let')}
+        lifted = {(f.get('fn_emitted') or f.get('as') or f['name']): f.get('named_clauses', []) for f in meta.get('functions', []) if f['kind'] in ('item', 'tail', 'loop', 'let', 'quote')}
         fails, und = _classify(r['diags'], table, unit, cfg, text_lines, lifted)
         if sd is None:
             res['_diags'] = r['diags']
@@ -493,6 +493,8 @@ def print_unit_result(r):
         print('  auto-repair: shims', sorted((r.get('auto_shims') or {}).keys()), 'unconstrained std functions', r.get('auto_havoc'))
     for u in r['undecided']:
         print('  UNDECIDED:', u)
+    for su in r.get('undecided_scoped', []):
+        print('  UNDECIDED (properties', su['properties'], '):', su['msg'])
     for f in r['failures']:
         print(f"  FAILED {f['obligation']}  [{f['kind']}] props={f['properties']} src={f['source']}")
         for l in f['labels'][:3]:
@@ -558,7 +560,8 @@ def check_property(pid, tier='quick', seed=0):
     # code and reported (labelled bounded); finding none leaves the unit undecided.
     for r in results:
         fe = [u for u in r['undecided'] if u.startswith('verifier front-end:') or u.startswith('lift')]
-        if r['status'] != 'undecided' or not fe or nviol:
+        fe += [su['msg'] for su in r.get('undecided_scoped', []) if pid in su['properties']]
+        if not fe or nviol or (r['status'] != 'undecided' and not any(pid in su['properties'] for su in r.get('undecided_scoped', []))):
             continue
         path, found = rp.make_standin_replay(pid, r['unit'], fe, seed)
         if found:
@@ -598,7 +601,7 @@ def write_evidence(pid, tier, seed, results, nviol, undecided, kf_lines, wall, e
     obligations = sum(r.get('obligations', 0) for r in results)
     discharged = sum(r.get('discharged', 0) for r in results)
     trusted = sorted({t for r in results for t in r.get('trusted_base', [])})
-    trusted += ['flag --no-trait-conflicts', 'verus 0.2026.09.13 / z3 / rustc 1.98.1', 'lifter rewrites R0-R10 (DESIGN.md section 3)']
+    trusted += ['flag --no-trait-conflicts', 'verus 0.2026.09.13 / z3 / rustc 1.98.1', 'lifter rewrites R0-R16 (DESIGN.md section 3)']
     samples = []
     functions = []
     rewrites = []
